@@ -64,5 +64,8 @@ class SRCapabilities(TLV):
                     data = struct.unpack('!I', value[7:7 + length])[0]
                     value = value[7 + length:]
                     tmp['sid'] = data
+                else:
+                    # neither a label nor an index: skip the sub-TLV instead of reading it again for ever
+                    value = value[7 + length:]
                 results.append(tmp)
         return cls(value={"flag": {"I": I, "V": V}, "value": results})
